@@ -369,6 +369,9 @@ class Exec:
                 lst.n = lst.n - 1
                 return Opaque("popped element")
             raise Unsupported("pop on %r" % lst, node)
+        if name == 'extend' and len(args) == 1 and isinstance(args[0], (PList, tuple, list)) and not kwargs:
+            for x in (args[0].items if isinstance(args[0], PList) else args[0]): s.list_method(lst, 'append', [x], {}, node)        # extend by a literal list = appends
+            return None
         if name in ('extend', 'insert', 'remove', 'clear', 'sort', 'reverse'):
             s.note_write(lst, name)
             raise Unsupported("list.%s" % name, node)
@@ -400,6 +403,13 @@ class Exec:
             return
         if isinstance(st, ast.AugAssign):
             cur = s.eval(_load(st.target), env)
+            if isinstance(st.op, ast.Add) and isinstance(cur, (PList, Grow, Post)):
+                add = s.eval(st.value, env)
+                if isinstance(add, (PList, tuple, list)):
+                    # `lst += [a, b]` extends the list object in place (aliases keep seeing it): the same as appends
+                    for x in (add.items if isinstance(add, PList) else add): s.list_method(cur, 'append', [x], {}, st)
+                    return
+                raise Unsupported("list += %r" % (add,), st, env.get('__path__'))
             v = s.binop(st.op, cur, s.eval(st.value, env), st)
             s.assign(st.target, v, env)
             return
@@ -484,7 +494,13 @@ class Exec:
         elif isinstance(it, PList): items = list(it.items)
         elif isinstance(it, (list, tuple)): items = list(it)
         elif isinstance(it, Vec): items = list(it.xs)
-        elif isinstance(it, Seq): return s.generic_seq_loop(st, env, it)
+        elif isinstance(it, Seq):
+            # `for v in <list of symbolic length>: out.append(f(v))` is the recurrence loop over range(len(list)) with v = list[k]
+            appends = any(isinstance(c, ast.Call) and isinstance(c.func, ast.Attribute) and c.func.attr in ('append', 'extend') and isinstance(c.func.value, ast.Name)
+                          and isinstance(env.get(c.func.value.id), PList) for c in ast.walk(st)) or \
+                      any(isinstance(c, ast.AugAssign) and isinstance(c.op, ast.Add) and isinstance(c.target, ast.Name) and isinstance(env.get(c.target.id), PList) for c in ast.walk(st))
+            if appends: return s.generic_loop(st, env, _Range(0, it.n), elem_seq=it)
+            return s.generic_seq_loop(st, env, it)
         elif isinstance(it, (set, frozenset)): items = sorted(it, key=repr)
         else: raise Unsupported("for over %r" % (it,), st)
         for v in items:
@@ -529,13 +545,17 @@ class Exec:
                 raise Unsupported("mutation inside a loop over a symbolic-length list", st)
         s.loops.append(dict(kind='effect-free', node=st))
 
-    def generic_loop(s, st, env, rng):
+    def generic_loop(s, st, env, rng, elem_seq=None):
         """append-only `for step in range(n)` with symbolic n: executed once for generic k in [0, n)"""
         path = env.get('__path__')
         n = rng.n
         if rng.start != 0: raise Unsupported("range start", st, path)
-        grown = sorted({c.func.value.id for c in ast.walk(st) if isinstance(c, ast.Call) and isinstance(c.func, ast.Attribute)
-                        and c.func.attr == 'append' and isinstance(c.func.value, ast.Name)})
+        grown = {c.func.value.id for c in ast.walk(st) if isinstance(c, ast.Call) and isinstance(c.func, ast.Attribute)
+                 and c.func.attr in ('append', 'extend') and isinstance(c.func.value, ast.Name)}
+        # `lst += [..]` on a list of the enclosing function is an append in disguise (in-place extend), not a rebinding
+        aug_lists = {c.target.id for c in ast.walk(st) if isinstance(c, ast.AugAssign) and isinstance(c.op, ast.Add) and isinstance(c.target, ast.Name)
+                     and isinstance(c.value, ast.List) and isinstance(env.get(c.target.id), PList)}
+        grown = sorted(grown | aug_lists)
         # syntactic frame: inside the loop lists are only read and appended to; no rebinding of outer names
         assigned = set()
         for c in ast.walk(st):
@@ -544,7 +564,8 @@ class Exec:
                     for e in ast.walk(t):
                         if isinstance(e, ast.Subscript) and isinstance(e.ctx, ast.Store): raise Unsupported("item assignment inside a generic loop", c, path)
                         if isinstance(e, ast.Attribute) and isinstance(e.ctx, ast.Store): raise Unsupported("attribute assignment inside a generic loop", c, path)
-                        if isinstance(e, ast.Name) and isinstance(e.ctx, ast.Store): assigned.add(e.id)
+                        if isinstance(e, ast.Name) and isinstance(e.ctx, ast.Store) and not (isinstance(c, ast.AugAssign) and e.id in aug_lists): assigned.add(e.id)
+            if isinstance(c, ast.Call) and isinstance(c.func, ast.Attribute) and c.func.attr == 'extend' and len(c.args) == 1 and isinstance(c.args[0], ast.List): continue
             if isinstance(c, ast.Call) and isinstance(c.func, ast.Attribute) and c.func.attr in _MUTATORS - {'append'}:
                 raise Unsupported("list mutation other than append inside a generic loop", c, path)
             if isinstance(c, (ast.For, ast.While)) and c is not st: raise Unsupported("nested loop inside a generic loop", c, path)
@@ -563,8 +584,8 @@ class Exec:
             s.loops.append(dict(kind='recurrence-skipped', node=st, n=n)); return       # zero iterations: lists keep their prefix
         k = var('k', 'I')
         for L in grown: env[L] = Grow(L, init[L].items, owner=init[L].owner)
-        s.assign(st.target, k, env)
         s.assume(band(cmp('>=', k, 0), cmp('<', k, n)), 'generic iteration index')
+        s.assign(st.target, k if elem_seq is None else s.with_invariant(s.seq_get(elem_seq, k)), env)
         mark = len(s.pc)
         s.block(st.body, env)
         rec = dict(kind='recurrence', node=st, n=n, lists={L: env[L] for L in grown}, pc_mark=mark, locals={a: env.get(a) for a in assigned})
@@ -949,6 +970,8 @@ class Exec:
             if isinstance(a, Obj) and nm and a.cls in s.src.classes and s.src.method(a.cls, nm) is not None:
                 return s.call_function(s.src.method(a.cls, nm), [b], {}, self_obj=a)
             raise Unsupported("operator on objects %r %r" % (a, b), node)
+        if isinstance(a, Post): a = post_as_seq(a, node)
+        if isinstance(b, Post): b = post_as_seq(b, node)
         if isinstance(a, PList) or isinstance(b, PList):
             if isinstance(op, ast.Mult):
                 lst, n = (a, b) if isinstance(a, PList) else (b, a)
@@ -1071,6 +1094,15 @@ class Exec:
             fs.append(tob(r))
         r = band(*fs)
         return r.a[0] if r.op == 'lit' else r
+
+
+def post_as_seq(p, node=None):
+    """the finished list of an append-only loop whose iterations do not read earlier elements, as an element-wise list"""
+    if not (p.a == 1 and p.pops == 0 and p.pure and p.conds is not None and p.len0 == 0):
+        raise Unsupported("list %s built by a loop cannot be used element-wise here" % p.name, node)
+    q = Seq(p.length(), lambda i, p=p: subst_value(p.grow.app[0], {'k': lift(i)}), owner=p.owner, tag=p.tag)
+    q.conds = (lambda i, p=p: [ir.subst(c, {'k': lift(i)}) for c in p.conds])
+    return q
 
 
 def _escape(v, seen=None):
